@@ -72,6 +72,22 @@ def templates():
                 "  {\n    Cell<float> d = new Cell<float>(1.5f);\n    measure d.q;\n  }\n  {\n    Probe2 p = new Probe2();\n    x(p.q);\n    measure p.q;\n  }\n"
                 "  Cell<int> last = new Cell<int>(2);\n  echo(\"g\");\n}\n",
                 [("Cell<int>.q", "1"), ("Cell<float>.q", "0"), ("Probe2.q", "1"), ("Cell<int>.q", "?")], 1))
+    # owners of tracked fields that become garbage inside a reference cycle: they are reclaimed by the cycle collector (at the
+    # latest by the collection at the end of the run), not by reference counting - still one outcome per owner that ends.
+    # Variants: only a register field, only a scalar field, both fields merely inherited from a base class.
+    link = "class Link {\n  public Probe owner;\n  public constructor() -> Link { }\n}\n"
+    once = ("function once(int f) -> void {\n  Probe p = new Probe();\n  Link l = new Link();\n  p.link = l;\n  l.owner = p;\n  p.fire(f);\n}\n"
+            "function main() -> void {\n  once(1);\n  once(0);\n  echo(\"c\");\n}\n")
+    out.append(("garbage cycle register owner", "class Probe {\n  public Link link;\n  @tracked public qubit[2] r;\n  public constructor() -> Probe { }\n"
+                "  public function fire(int f) -> void {\n    if (f == 1) { x(r[0]); }\n    measure r;\n  }\n}\n" + link + once,
+                [("Probe.r", "10"), ("Probe.r", "00")], 1))
+    out.append(("garbage cycle scalar owner", "class Probe {\n  public Link link;\n  @tracked public qubit q;\n  public constructor() -> Probe { }\n"
+                "  public function fire(int f) -> void {\n    if (f == 1) { x(q); }\n    measure q;\n  }\n}\n" + link + once,
+                [("Probe.q", "1"), ("Probe.q", "0")], 1))
+    out.append(("garbage cycle inherited fields", "class Base {\n  @tracked public qubit[2] r;\n  @tracked public qubit q;\n  public constructor() -> Base { }\n}\n"
+                "class Probe extends Base {\n  public Link link;\n  public constructor() -> Probe { super(); }\n"
+                "  public function fire(int f) -> void {\n    if (f == 1) { x(r[0]); x(q); }\n    measure r;\n    measure q;\n  }\n}\n" + link + once,
+                [("Probe.r", "10"), ("Probe.q", "1"), ("Probe.r", "00"), ("Probe.q", "0")], 1))
     return out
 
 
